@@ -6,7 +6,6 @@ import (
 	"encoding/hex"
 	"encoding/json"
 	"fmt"
-	"log"
 	"net/http"
 	"net/http/httptest"
 	"runtime"
@@ -77,6 +76,7 @@ type OpResult struct {
 	Skipped    string         `json:"skipped,omitempty"`
 	Mem        []MemRec       `json:"-"`               // in-memory records of the op's subscriber after the op
 	Panics     []string       `json:"panics,omitempty"` // panics recovered by the HTTP layer during the op
+	Diam       *DiamResult    `json:"diam,omitempty"`
 }
 
 // History is everything recorded about one run.
@@ -153,10 +153,6 @@ func acctKey(supi string, rg int32) string { return fmt.Sprintf("%s|%d", supi, r
 // Run executes the scenario.  It must be called inside a synctest bubble.
 func Run(sc *Scenario) *History {
 	h := &History{Scenario: sc, Credited: map[string]int64{}}
-	lc := &logCapture{}
-	log.SetOutput(lc)
-	log.SetFlags(0)
-
 	w, err := Boot(sc)
 	if err != nil {
 		h.BootErr = err.Error()
@@ -244,14 +240,22 @@ func Run(sc *Scenario) *History {
 	h.Tasks = rt.End()
 	w.Close()
 	time.Sleep(time.Millisecond) // let closed connections unwind
-	lc.mu.Lock()
-	for _, l := range lc.lines {
+	h.DiamPanics = w.DiamPanics()
+	return h
+}
+
+// DiamPanics returns the panics that go-diameter's connection loop recovered (it logs
+// them through the standard logger and closes the connection).
+func (w *World) DiamPanics() []string {
+	var out []string
+	w.lc.mu.Lock()
+	for _, l := range w.lc.lines {
 		if strings.Contains(l, "panic serving") {
-			h.DiamPanics = append(h.DiamPanics, firstLines(l, 12))
+			out = append(out, firstLines(l, 14))
 		}
 	}
-	lc.mu.Unlock()
-	return h
+	w.lc.mu.Unlock()
+	return out
 }
 
 func firstLines(s string, n int) string {
